@@ -36,6 +36,7 @@ class Case:
         self.family, self.op, self.qual, self.inp = family, op, qual, inp
         self.verdicts: list[Verdict] = []
         self.taint = []
+        self.canon = None      # the result as a labelled tensor, storage order forgotten (for order-independence, C04)
 
     def v(self, aspect, ok, msg=""):
         self.verdicts.append(Verdict(aspect, bool(ok), msg))
@@ -66,6 +67,14 @@ def describe(r, w):
 
 def judge_array(case: Case, w: World, kind, r, exp_letters, exp_axes, exp_term, what="result"):
     """r must be a FlodymArray over exp_letters whose values have exp_axes and exp_term"""
+    if kind == "ok" and isinstance(r, Obj) and isinstance(r.f.get("values"), AArr) and isinstance(r.f.get("dims"), Obj):
+        v0 = r.f["values"]
+        try:
+            case.canon = (what, frozenset(zip(w.letters(r.f["dims"]), v0.axes)), v0.term)
+        except TypeError:
+            case.canon = (what, "unhashable")
+    else:
+        case.canon = (what, kind if kind != "ok" else repr(type(r)))
     if kind != "ok":
         case.v("result", False, f"{what}: the call ended with {kind} ({describe(r, w)}) instead of returning "
                                 f"an array over {tuple(exp_letters)}")
@@ -90,9 +99,11 @@ def judge_array(case: Case, w: World, kind, r, exp_letters, exp_axes, exp_term, 
 
 def judge_ndarray(case, w, kind, r, exp_axes, exp_term, what="result"):
     if kind != "ok" or not isinstance(r, (AArr, SymScalar)):
+        case.canon = (what, kind)
         case.v("result", False, f"{what}: ended with {kind} ({describe(r, w)})")
         return False
     axes = r.axes if isinstance(r, AArr) else ()
+    case.canon = (what, frozenset(axes), r.term)
     if tuple(axes) != tuple(exp_axes) or r.term != exp_term:
         case.v("result", False, f"{what}: axes {list(axes)} entry {NP.show(r.term)}; required axes {list(exp_axes)} entry {NP.show(exp_term)}")
         return False
@@ -858,6 +869,167 @@ def producer_cases(prog, alpha, taint_mode="abort"):
         for which in ("copy", "full", "full_like", "from_dims_superset", "apply", "apply-inplace", "abs-inplace", "sign-inplace"):
             yield lambda which=which, A=A: case_producer(prog, which, A, taint_mode)
     yield lambda: case_producer(prog, "scalar", (), taint_mode)
+
+
+# ====================================================================== lifetime-model parameters (C04 / C08)
+LIFETIME_PRMS = {"FixedLifetime": ("mean",), "NormalLifetime": ("mean", "std"), "FoldedNormalLifetime": ("mean", "std"),
+                 "LogNormalLifetime": ("mean", "std"), "WeibullLifetime": ("weibull_shape", "weibull_scale")}
+
+
+def case_lifetime_param(prog, cls_name, A, P, via, kind_of="array", taint_mode="abort"):
+    """a parameter handed to a lifetime model (constructor or set_prms) is applied per label"""
+    w = World(prog, taint_mode)
+    case = Case("lifetime-param", via, f"{cls_name}.{via}", {"op": f"{cls_name} parameter via {via}", "model_dims": list(A), "param_dims": list(P), "param": kind_of})
+    names = LIFETIME_PRMS[cls_name]
+    ds = w.dimset(A)
+    prms, exp = {}, {}
+    inputs = [ds]
+    for nm in names:
+        if kind_of == "array":
+            arr = w.array("p_" + nm, P)
+            prms[nm] = arr
+            exp[nm] = leaf_term("p_" + nm, P, w)
+            inputs.append(arr)
+        else:
+            prms[nm] = SymScalar(("sym", "k_" + nm))
+            exp[nm] = ("sym", "k_" + nm)
+    snaps = w.snap(*inputs)
+    cls = prog.cls(cls_name)
+    if via == "__init__":
+        kind, m = run_guarded(lambda: w.it.construct(cls, [], dict(dims=ds, time_letter=A[0], **prms)))
+    else:
+        kind, m = run_guarded(lambda: w.it.construct(cls, [], dict(dims=ds, time_letter=A[0])))
+        if kind == "ok":
+            kind, r2 = run_guarded(lambda: w.it.call_method(m, "set_prms", **prms))
+            if kind != "ok":
+                m = r2
+    if any(l not in A for l in P) and kind_of == "array":
+        case.v("raises", kind == "raise", "a parameter over a dimension the model does not have was accepted")
+    elif kind != "ok":
+        case.canon = ("param", kind)
+        case.v("result", False, f"ended with {kind}: {describe(m, w)}")
+    else:
+        ok, msgs, canon = True, [], []
+        for nm in names:
+            v = m.f.get(nm)
+            if not isinstance(v, AArr) or tuple(v.axes) != tuple(full_axes(w, A)) or v.term != exp[nm]:
+                ok = False
+                msgs.append(f"parameter {nm} is stored as {describe(v, w)}; it must carry the model's dims {tuple(A)} with entry {NP.show(exp[nm])}")
+            elif kind_of == "array" and v.buf is prms[nm].f["values"].buf:
+                case.v("fresh", False, f"parameter {nm} of the model shares memory with the array it was built from")
+            canon.append((nm, frozenset(v.axes) if isinstance(v, AArr) else None, getattr(v, "term", None)))
+        case.canon = ("param", tuple(canon))
+        case.v("result", ok, "; ".join(msgs))
+    common_checks(case, w, inputs, snaps, kind if kind != "ok" else "ok", m if kind != "ok" else None)
+    return finish(case, w)
+
+
+def lifetime_param_cases(prog, alpha, taint_mode="abort"):
+    import itertools as _it
+    others = [l for l in alpha if l != "t"]
+    models = [("t",) + p for k in range(0, len(others) + 1) for p in _it.permutations(others, k)]
+    for A in models:
+        for cls_name in LIFETIME_PRMS:
+            if cls_name not in prog.classes:
+                continue
+            for via in ("__init__", "set_prms"):
+                yield lambda A=A, c=cls_name, via=via: case_lifetime_param(prog, c, A, (), via, "number", taint_mode)
+                for P in lists_over(tuple(A)):
+                    if cls_name != "FixedLifetime" and (len(P) not in (0, len(A)) and len(A) > 2):
+                        continue
+                    yield lambda A=A, c=cls_name, via=via, P=P: case_lifetime_param(prog, c, A, P, via, "array", taint_mode)
+        yield lambda A=A: case_lifetime_param(prog, "FixedLifetime", A, ("e",), "set_prms", "array", taint_mode)
+
+
+# ====================================================================== stock / lifetime-model validators (C13)
+STOCK_CLASSES = ("SimpleFlowDrivenStock", "InflowDrivenDSM", "StockDrivenDSM")
+
+
+def case_stock_ctor(prog, cls_name, A, which, how, taint_mode="abort"):
+    """construct a stock over dims A with one component given over other dims"""
+    w = World(prog, taint_mode)
+    case = Case("stock-ctor", "__init__", f"{cls_name}.__init__", {"op": f"{cls_name}(...)", "dims": list(A), "component": which, "component_dims": how})
+    SA = prog.cls("StockArray")
+    ds = w.dimset(A)
+    kw = dict(dims=ds, time_letter="t")
+    dsm = cls_name != "SimpleFlowDrivenStock"
+    if dsm:
+        kw["lifetime_model"] = prog.cls("FixedLifetime")
+    dimobjs = None
+    if how == "same":
+        L = tuple(A)
+    elif how == "permuted":
+        L = tuple(A[:1]) + tuple(reversed(A[1:])) if len(A) > 2 else tuple(reversed(A))
+    elif how == "time-last":
+        L = tuple(A[1:]) + tuple(A[:1])
+    elif how == "other-letter":
+        L = tuple(A[:-1]) + ("e",)
+    elif how == "missing":
+        L = tuple(A[:-1])
+    elif how == "other-items":
+        L = tuple(A)
+        last = A[-1]
+        dimobjs = {last: w.it.construct(w.Dimension, [], dict(name=last * 2, letter=last, items=ItemList(w.items(last) + [last + "_extra"])))}
+    else:
+        raise AnalysisError(how)
+    inputs = [ds]
+    if which in ("stock", "inflow", "outflow"):
+        comp = w.array(which, L, cls=SA, dimobjs=dimobjs)
+        kw[which] = comp
+        inputs.append(comp)
+    elif which == "lifetime_model":
+        lm_ds = w.dimset(L, dimobjs)
+        kind0, lm = run_guarded(lambda: w.it.construct(prog.cls("FixedLifetime"), [], dict(dims=lm_ds, time_letter="t")))
+        if kind0 != "ok":
+            return None
+        kw["lifetime_model"] = lm
+    elif which == "dims-time-not-first":
+        ds2 = w.dimset(tuple(A[1:]) + tuple(A[:1]))
+        kw["dims"] = ds2
+        inputs = [ds2]
+    snaps = w.snap(*inputs)
+    kind, r = run_guarded(lambda: w.it.construct(prog.cls(cls_name), [], kw))
+    should_raise = how != "same" or which == "dims-time-not-first"
+    if should_raise:
+        case.v("raises", kind == "raise", f"{cls_name} accepted a {which} whose dimensions are {how} relative to its own dims {tuple(A)}")
+    else:
+        ok = kind == "ok" and isinstance(r, Obj)
+        msg = f"ended with {kind}: {describe(r, w)}"
+        if ok:
+            for nm in ("stock", "inflow", "outflow"):
+                c = r.f.get(nm)
+                bad = w.invariant(c) if isinstance(c, Obj) else f"{nm} is {c!r}"
+                if bad is None and w.letters(c.f["dims"]) != tuple(A):
+                    bad = f"{nm} is over {w.letters(c.f['dims'])}, the stock over {tuple(A)}"
+                if bad:
+                    ok, msg = False, bad
+            if dsm:
+                lmo = r.f.get("lifetime_model")
+                if not isinstance(lmo, Obj) or w.letters(lmo.f["dims"]) != tuple(A):
+                    ok, msg = False, "the lifetime model built for the stock is not over the stock's dims"
+        case.v("result", ok, msg)
+    common_checks(case, w, inputs, snaps, kind, r if kind != "ok" else None)
+    return finish(case, w)
+
+
+def stock_ctor_cases(prog, taint_mode="abort"):
+    for cls_name in STOCK_CLASSES:
+        if cls_name not in prog.classes:
+            continue
+        for A in [("t",), ("t", "a"), ("t", "a", "b")]:
+            comps = ["stock", "inflow", "outflow"] + (["lifetime_model"] if cls_name != "SimpleFlowDrivenStock" else [])
+            yield lambda c=cls_name, A=A: case_stock_ctor(prog, c, A, "none", "same", taint_mode)
+            for which in comps:
+                for how in ("same", "permuted", "time-last", "other-letter", "missing", "other-items"):
+                    if how in ("permuted", "time-last") and len(A) < 2:
+                        continue
+                    if how == "permuted" and len(A) < 3:
+                        continue
+                    if how == "missing" and len(A) < 2:
+                        continue
+                    yield lambda c=cls_name, A=A, which=which, how=how: case_stock_ctor(prog, c, A, which, how, taint_mode)
+            if len(A) > 1:
+                yield lambda c=cls_name, A=A: case_stock_ctor(prog, c, A, "dims-time-not-first", "same", taint_mode)
 
 
 # ====================================================================== driver
